@@ -100,12 +100,30 @@ DecFrom(s, i) ==
     ELSE IF s[i] = 43 THEN <<32>> \o DecFrom(s, i + 1)
     ELSE <<s[i]>> \o DecFrom(s, i + 1)
 Decode(s) == DecFrom(s, 1)
+\* the same with '+' standing for itself (percent-encoding in the sense of RFC 3986, where '+' is not special)
+RECURSIVE DecKeepFrom(_, _)
+DecKeepFrom(s, i) ==
+    IF i > Len(s) THEN <<>>
+    ELSE IF PctAt(s, i) THEN <<16 * HexVal(s[i + 1]) + HexVal(s[i + 2])>> \o DecKeepFrom(s, i + 3)
+    ELSE <<s[i]>> \o DecKeepFrom(s, i + 1)
+DecodeKeepPlus(s) == DecKeepFrom(s, 1)
 
 (* ------------------------------ data URIs ------------------------------ *)
 IsPrefix(p, s) == Len(p) <= Len(s) /\ SubSeq(s, 1, Len(p)) = p
 DataScheme == <<100, 97, 116, 97, 58>>                       \* "data:"
 TextPlain  == <<116, 101, 120, 116, 47, 112, 108, 97, 105, 110>>   \* "text/plain"
 HasComma(s) == \E i \in 6..Len(s) : s[i] = 44
+\* what follows the first comma after "data:"
+AfterComma(s) == LET c == CHOOSE i \in 6..Len(s) : s[i] = 44 /\ \A j \in 6..(i - 1) : s[j] # 44
+                 IN  SubSeq(s, c + 1, Len(s))
+\* "the exact payload of any data: URI obtained by base64- or percent-encoding arbitrary bytes".  A literal '+' in
+\* a percent-encoded payload is where two readings of "percent-encoding" part (form encoding: '+' is a space;
+\* RFC 3986: '+' is a plus); the statement does not choose, so either decoding of the text is accepted there.
+PayloadOK(s, enc, payload, got) ==
+    LET part == AfterComma(s) IN
+    IF enc # "b64" /\ (\E i \in 1..Len(part) : part[i] = 43)
+    THEN got = Decode(part) \/ got = DecodeKeepPlus(part)
+    ELSE got = payload
 \* the statement says "the media type (text/plain when absent)": whether parameters are part of it is left open
 MediaOK(base, params, got) == LET b == IF base = <<>> THEN TextPlain ELSE base IN got = b \/ got = b \o params
 
@@ -171,7 +189,7 @@ RoundTrip(r) == Fam("url") /\ r = inp /\ UNCHANGED hvars
 \* err: "nil" | "bad" (ErrBadDataURI) | "decode" (any other error)
 DataURI(err, mt, data) ==
     /\ Fam("datauri")
-    /\ CASE aux.kind = "enc" -> err = "nil" /\ data = aux.payload /\ MediaOK(aux.base, aux.params, mt)
+    /\ CASE aux.kind = "enc" -> err = "nil" /\ PayloadOK(inp, aux.enc, aux.payload, data) /\ MediaOK(aux.base, aux.params, mt)
          [] aux.kind = "bad" -> err # "nil"
          [] OTHER            -> (~IsPrefix(DataScheme, inp) \/ ~HasComma(inp)) => err # "nil"
     /\ UNCHANGED hvars
